@@ -36,7 +36,8 @@ func TestMain(m *testing.M) {
 		Rule: "(generators) rapid-generated parameterisations of 19 generator families (UV sphere welded/unwelded, hemisphere, cube welded/quads +-UVs, cylinder with cap/UV options, circle, quad, cone, extrude polygon/circle/line/shape/closed shape over random paths, repeat with circle/line/fibonacci transforms incl. zero transforms, small marching-cubes fields, Bowyer-Watson), small row/column/side counts enumerated exhaustively; " +
 			"(chains) 1..8 operations drawn from the 50-operation catalogue applied to generated well-formed meshes and to earlier results (branching), each applied when its documented precondition holds and, for a drawn fraction, when it does not but the library itself checks it. " +
 			"Oracle: oracle.WF on every returned mesh (common attribute length, indices in range, index count fits the topology, walking every primitive through ScanPrimitives/Tri accessors/BoundingBox raises no runtime error); a runtime.Error anywhere is a violation, a reported failure is not. " +
-			"Non-trivial = generator case with a non-default option or count; chain whose input has non-identity indices or unreferenced vertices or >= 2 attribute arities, or with >= 2 applied operations. Distinct by case JSON.",
+			"Non-trivial = generator case with a non-default option or count; chain whose input has non-identity indices or unreferenced vertices or >= 2 attribute arities, or with >= 2 applied operations. Distinct by case JSON. " +
+			"Extrusion paths may be explicitly closed (last point == first) and one attribute name may exist in two dimensions. Sub-check node-generators: the 21 mesh-producing NodeData.Process() wrappers with every port unwired or wired to a generated constant (boundary counts 0,1,2,3,-1 and sizes 0,-1,1e-9,1e9 included; inputs a node reads without a default are always wired); non-trivial = mixed wiring or a boundary value.",
 		Assumptions: []string{
 			"attribute filters only on point topology; Circle/Cylinder/Cone with >= 3 sides; sphere rows >= 2, columns >= 3; SplitOnUniqueMaterials only with non-nil materials whose ranges partition the triangles; Copy*/Set* only with arrays of the common length (implicit preconditions the library does not check are never violated by the generator)",
 			"extrusion paths have distinct consecutive points",
